@@ -2,10 +2,14 @@
 IMPL: index::broadcast_shape (2-ary and variadic), index::shape_broadcast_to / origin_axes / free_axes,
 index::broadcast_to, view::broadcast_to, view::broadcast_arrays.  ORACLE: numpy.broadcast_shapes / broadcast_to /
 broadcast_arrays (independent of the C++)."""
-import itertools
+import itertools, os, sys, random
 import numpy as np
+import runner
 from runner import Case
 from shapes import shapes, prod, fmt, fmt_lists
+
+sys.path.insert(0, os.path.join(runner.ROOT, 'harness'))
+import gen_kinds_c06 as G
 
 ID = 'C06'
 LEVEL = 'proof'
@@ -40,7 +44,13 @@ KNOWN_PREDICATES = {}
 
 
 def harness_specs(tier):
-    return [dict(name=H, src='h_c06.cpp', flavour='fast')]
+    specs = [dict(name=H, src='h_c06.cpp', flavour='fast')]
+    for name, cases in kplan(tier)[1].items():
+        # the NMTOOLS_VERIF hooks are ON in every generated TU: a clamp (2) / capacity (1) event while an ACCEPTED clause is
+        # computed is printed into the answer (harness/c06_kinds.hpp) and therefore differs from the reference
+        # (-O0: the kind matrix is bound by the compile time of the template instantiations, not by its run time)
+        specs.append(dict(name=name, src=G.write_tu(name, cases), flavour='fast', extra=('-DPROTO_VERIF_EVENTS', '-O0')))
+    return specs
 
 
 # ---------------------------------------------------------------------------------------------- oracle (NumPy)
@@ -103,6 +113,229 @@ def o_free_axes(a, b):
     return 'ok ' + fmt([1 if (k < pad or b[k - pad] == 1) else 0 for k in range(len(a))])
 
 
+# ---------------------------------------------------------------------------------------------- mixed-kind matrix
+# Generated TUs (harness/gen_kinds_c06.py): every pair / triple of shape container kinds over a fixed table of shape
+# pairs / triples (seed-independent: the TUs stay cached) + a part drawn from VERIF_SEED (own TUs, named by the seed).
+
+# stretching 1s in every position, rank extension on either side, equal shapes, scalars, incompatible pairs
+K_PAIRS = [
+    ([3, 1], [3, 5]), ([1, 4], [6, 4]), ([2, 1, 3], [4, 1]), ([1], [5]), ([5], [1, 1]), ([2, 3], [2, 3]), ([1, 1], [1, 1]),
+    ([3], [2, 3]), ([2, 1], [1, 3]), ([1, 2, 1], [3, 1, 4]), ([2, 1, 1, 3], [5, 1]),
+    ([], [2, 3]), ([], [1]), ([], []),
+    ([2, 3], [3, 2]), ([3], [4]), ([2, 1, 3], [4, 2]), ([2, 3], [2, 1, 4]), ([1, 3], [2]),
+]
+K_TRIPLES = [
+    ([1, 4], [6, 4], [1]), ([2, 1, 3], [4, 1], [1]), ([3, 1], [1, 5], [2, 1, 1]), ([2, 3], [2, 3], [2, 3]),
+    ([1], [3, 1], [2, 1, 1]), ([4, 1], [4, 1], [1, 5]), ([], [3, 1], [1, 2]), ([2, 1], [1, 3], [4, 1, 1]),
+    ([2, 3], [3, 2], [1]), ([2, 1], [1, 3], [2, 4]), ([3, 1], [1], [4, 5]),
+]
+# arrays: rank >= 1 (a rank-0 operand is the int scalar)
+K_APAIRS = [
+    ([3, 1], [3, 5]), ([1, 4], [6, 4]), ([2, 1, 3], [4, 1]), ([3], [2, 3]), ([2, 3], [2, 3]), ([2, 1], [1, 3]),
+    ([1, 2, 1], [3, 1, 2]), ([], [2, 3]), ([2, 3], [3, 2]), ([2, 1, 3], [4, 2]),
+]
+K_ATRIPLES = [([1, 4], [3, 4], [1]), ([2, 1], [1, 3], [2, 1, 1]), ([], [3, 1], [1, 2]), ([2, 3], [3, 2], [1])]
+# (source, target) of broadcast_to
+K_BTO = [
+    ([3, 1], [3, 5]), ([1, 4], [6, 4]), ([3], [2, 3]), ([4, 1], [2, 4, 3]), ([2, 3], [2, 3]), ([1], [2, 2]), ([], [2, 3]),
+    ([2, 3], [3]), ([2, 3], [2, 4]), ([3, 1], [1, 5]),
+]
+K_TU_SECONDS = 20.0          # compile budget of one generated TU (KCase.weight ~ seconds of g++ -O1)
+K_STRIDE = {'quick': dict(bs2=1, bs3=6, bto=2, barr=5, add=5, barr3=1),   # strides coprime with the 7 kinds
+            'thorough': dict(bs2=1, bs3=1, bto=1, barr=1, add=1, barr3=1)}
+
+
+def _ikinds(s):
+    return G.INDEX_KINDS if len(s) else G.INDEX_KINDS0
+
+
+def _akinds(s):
+    return G.ARRAY_KINDS if len(s) else G.ARRAY_KINDS0
+
+
+def _k_fixed(tier):
+    """the seed-independent cases: every kind pair / triple over the tables (quick: a rotating 1/stride of the products
+    that are expensive to compile, so that every kind combination still meets several table entries)"""
+    stride = K_STRIDE[tier]
+    out = []
+
+    def take(op, items):
+        st = stride[op]
+        for n, (shapes_, kinds) in enumerate(items):
+            if n % st == (len(op) % st):
+                out.append(G.KCase(op, shapes_, kinds, salt=n % 3))
+
+    take('bs2', [((a, b), ks) for a, b in K_PAIRS for ks in itertools.product(_ikinds(a), _ikinds(b))])
+    take('bs3', [(t, ks) for t in K_TRIPLES for ks in itertools.product(*[_ikinds(x) for x in t])])
+    take('bto', [((a, b), (ka, kb)) for a, b in K_BTO for ka in _akinds(a) for kb in G.DST_KINDS])
+    take('barr', [((a, b), ks) for a, b in K_APAIRS for ks in itertools.product(_akinds(a), _akinds(b))])
+    take('add', [((a, b), ks) for a, b in K_APAIRS for ks in itertools.product(_akinds(a), _akinds(b))])
+    # three arrays: the kind triples that mix a constant, a fixed-rank and a dynamic / bounded shape in every order
+    mix = [ks for ks in itertools.product(['cs', 'fs', 'ds', 'hs', 'ls', 'fx', 'hy'], repeat=3) if len(set(ks)) == 3]
+    rr = random.Random(606)
+    rr.shuffle(mix)
+    n3 = 4 if tier == 'quick' else 30
+    items = []
+    for j, t in enumerate(K_ATRIPLES):
+        for ks in mix[j * n3:(j + 1) * n3]:
+            items.append((t, tuple(k if len(x) else 'num' for k, x in zip(ks, t))))
+    take('barr3', items)
+    return out
+
+
+def _rand_family(rng, n, rmax=4):
+    r = rng.randint(1, rmax)
+    full = [rng.choice([1, 2, 2, 3, 4, 5]) for _ in range(r)]
+    while prod(full) > 60:
+        full[rng.randrange(len(full))] = 1
+    ops = []
+    for _ in range(n):
+        s = derive_operand(rng, full)
+        ops.append(s)
+    if rng.random() < 0.3:
+        k = rng.randrange(n)
+        if ops[k]:
+            j = rng.randrange(len(ops[k]))
+            ops[k][j] += rng.choice([1, 2])
+    rng.shuffle(ops)
+    return ops
+
+
+def _k_seeded(tier, seed):
+    rng = random.Random(seed * 7919 + 606)
+    mul = 1 if tier == 'quick' else 5
+    out = []
+    for _ in range(24 * mul):
+        a, b = _rand_family(rng, 2)
+        out.append(G.KCase('bs2', (a, b), (rng.choice(_ikinds(a)), rng.choice(_ikinds(b))), salt=rng.randrange(3), seeded=True))
+    for _ in range(10 * mul):
+        t = _rand_family(rng, 3)
+        out.append(G.KCase('bs3', t, [rng.choice(_ikinds(x)) for x in t], salt=rng.randrange(3), seeded=True))
+
+    def arr_family(n):
+        while True:
+            t = _rand_family(rng, n, rmax=3)
+            if sum(1 for x in t if not x) <= 1 and (n > 2 or any(t)) and any(len(x) for x in t):
+                return t
+    for _ in range(8 * mul):
+        a, b = arr_family(2)
+        if rng.random() < 0.7 and np_bshape([a, b]) is not None:
+            b = np_bshape([a, b])
+        if not b:
+            b = [2]
+        out.append(G.KCase('bto', (a, b), (rng.choice(_akinds(a)), rng.choice(G.DST_KINDS)), salt=rng.randrange(3), seeded=True))
+    for op, cnt in (('barr', 6), ('add', 6)):
+        for _ in range(cnt * mul):
+            a, b = arr_family(2)
+            out.append(G.KCase(op, (a, b), (rng.choice(_akinds(a)), rng.choice(_akinds(b))), salt=rng.randrange(3), seeded=True))
+    for _ in range(2 * mul):
+        t = arr_family(3)
+        out.append(G.KCase('barr3', t, [rng.choice(_akinds(x)) for x in t], salt=rng.randrange(3), seeded=True))
+    return out
+
+
+_kplan_cache = {}
+
+
+def kplan(tier):
+    """([KCase], {TU name: [KCase]}) for this tier and VERIF_SEED"""
+    seed = int(os.environ.get('VERIF_SEED', '0'))
+    if (tier, seed) in _kplan_cache:
+        return _kplan_cache[(tier, seed)]
+    tus = {}
+
+    def chunk(cases, prefix):
+        # index-level and array-level cases in separate TUs (different headers); greedy by compile weight
+        for lvl, sel in (('i', [c for c in cases if c.op in ('bs2', 'bs3')]), ('v', [c for c in cases if c.op not in ('bs2', 'bs3')])):
+            cur, w, n = [], 0.0, 0
+            for c in sel + [None]:
+                if c is None or (cur and w + c.weight() > K_TU_SECONDS):
+                    if cur:
+                        tus['%s%s%02d' % (prefix, lvl, n)] = cur
+                        n += 1
+                    cur, w = [], 0.0
+                if c is not None:
+                    cur.append(c); w += c.weight()
+    fixed = _k_fixed(tier)
+    seeded = _k_seeded(tier, seed)
+    seen = set(); uniq = []
+    for c in fixed + seeded:
+        if c.key not in seen:
+            seen.add(c.key); uniq.append(c)
+    chunk([c for c in uniq if not c.seeded], 'k6_%s_' % tier[0])
+    chunk([c for c in uniq if c.seeded], 'k6_%s_seed%d_' % (tier[0], seed))
+    _kplan_cache[(tier, seed)] = (uniq, tus)
+    return _kplan_cache[(tier, seed)]
+
+
+def np_bshape(ss):
+    try:
+        return list(np.broadcast_shapes(*[tuple(s) for s in ss]))
+    except ValueError:
+        return None
+
+
+def _k_eval(e, shapes_):
+    """NumPy value of a clause expression (None = refused)"""
+    if isinstance(e, int):
+        return list(shapes_[e])
+    xs = [_k_eval(x, shapes_) for x in e[1:]]
+    if any(x is None for x in xs):
+        return None
+    return np_bshape(xs)
+
+
+def _k_arr(a):
+    return 'shape=%s;data=%s' % (fmt(a.shape), fmt(a.ravel()))
+
+
+def _k_operand(s, j):
+    return np.arange(prod(s)).reshape(tuple(s)) + 1000 * j
+
+
+def k_oracle(c):
+    parts = []
+    for n, what, payload in c.clauses():
+        if what == 'shape':
+            v = _k_eval(payload, c.shapes)
+            t = 'nothing' if v is None else fmt(v)
+        elif what == 'bto':
+            src, dst = c.shapes
+            t = _k_arr(np.broadcast_to(_k_operand(src, 0), tuple(dst))) if can_bto(src, dst) else 'nothing'
+        else:
+            ops = [_k_operand(c.shapes[j], j) for j in payload]
+            try:
+                outs = np.broadcast_arrays(*ops)
+                t = '|'.join(_k_arr(o) for o in outs) if what == 'barr' else _k_arr(sum(outs[1:], outs[0]))
+            except ValueError:
+                t = 'nothing'
+        parts.append(' %s=%s' % (n, t))
+    return 'ok' + ''.join(parts)
+
+
+def k_mreq(c):
+    """the request the (kind-blind) Lean model answers"""
+    cl = c.clauses()
+    if c.op in ('bs2', 'bs3'):
+        return 'kexpr shapes=%s terms=%s' % (fmt_lists(c.shapes), ','.join('%s:%s' % (n, G.prefix(e)) for n, _, e in cl))
+    if c.op == 'bto':
+        return 'kbto src=%s dst=%s' % (fmt(c.shapes[0]), fmt(c.shapes[1]))
+    return '%s shapes=%s orders=%s names=%s' % ('kadd' if c.op == 'add' else 'kbarr', fmt_lists(c.shapes),
+                                               ';'.join(fmt(p) for _, _, p in cl), ','.join(n for n, _, _ in cl))
+
+
+def kgen(tier):
+    cases, tus = kplan(tier)
+    for name, cs in tus.items():
+        for c in cs:
+            o = k_oracle(c)
+            ranks = '/'.join(str(len(s)) for s in c.shapes)
+            tags = ['kinds', 'k:' + c.op, 'k:' + ('seeded' if c.seeded else 'table')] + ['kind=' + k for k in sorted(set(c.kinds))] + \
+                   ['k:ranks=' + ranks, 'k:refused' if '=nothing' in o else 'k:accepted']
+            yield Case('k6 id=%s %s' % (c.key, c.text()), name, oracle=o, mreq=k_mreq(c), nontrivial=nontriv([s for s in c.shapes]) or len(set(c.kinds)) > 1,
+                       tags=tags)
+
+
 # ---------------------------------------------------------------------------------------------- generator
 
 def nontriv(ss):
@@ -131,6 +364,9 @@ def gen(tier, rng):
     R, E = (3, 3) if quick else (4, 4)
     S = list(shapes(R, E))
     kinds = ['vec', 'arr', 'sv']
+
+    # -- mixed container kinds incl. compile-time constant / clipped / fixed-size / hybrid (generated TUs)
+    yield from kgen(tier)
 
     # -- pairs: broadcast_shape both orders (comes for free: ordered pairs), shape_broadcast_to, elements
     for a in S:
